@@ -248,6 +248,18 @@ func execute(r *mon.Run, c Case, p Program, compare bool) []byte {
 			case op.Chunk < 0:
 				ent = &dataEOF{b: op.Entropy}
 			}
+			// failure, then retry: in every other program the builder first meets entropy sources that fail (at once, after
+			// 16 bytes, after 31 bytes); each attempt must return an error and leave the builder exactly as it was, so that
+			// the Finalize that follows produces the stream of the history without the failed attempts
+			if (i+len(op.Rekeys)+len(op.Entropy))%2 == 0 {
+				for _, avail := range []int{0, 16, 31} {
+					fr, ferr := rb.Finalize(&dataEOF{b: bytes.Repeat([]byte{0xa5}, avail)})
+					r.Hist("Finalize/failed-attempt-before-success")
+					if ferr == nil || fr != nil {
+						mismatch(i, fmt.Sprintf("Finalize/entropy-failure-ignored(avail=%d)", avail), nil, nil)
+					}
+				}
+			}
 			rr, err := rb.Finalize(ent)
 			if err != nil {
 				mismatch(i, fmt.Sprintf("Finalize/error(chunk=%d)", op.Chunk), []byte(err.Error()), nil)
